@@ -14,6 +14,7 @@ import (
 
 	"google.golang.org/grpc/codes"
 	"google.golang.org/grpc/status"
+	"google.golang.org/protobuf/proto"
 	"google.golang.org/protobuf/types/known/fieldmaskpb"
 	"google.golang.org/protobuf/types/known/timestamppb"
 
@@ -98,9 +99,19 @@ type op struct {
 	// the caller's own code and the reset mask among the options of UpdateMode (options.go)
 	Reset    []string `json:"reset,omitempty"`     // resource.WithResetPaths
 	HasReset bool     `json:"has_reset,omitempty"` //
-	Check    string   `json:"check,omitempty"`     // resource.WithExpectedCheck(namedCheck)
+	Check    string   `json:"check,omitempty"`     // resource.WithExpectedCheck(namedCheck); also on DeleteMode
 	Before   string   `json:"before,omitempty"`    // resource.InterceptBefore(namedIcpt)
 	After    string   `json:"after,omitempty"`     // resource.InterceptAfter(namedIcpt)
+	// NilMode: the request of an RPC (s.create, s.update, s.change) carries no mode message at all
+	NilMode bool `json:"nil_mode,omitempty"`
+}
+
+// reqMode is the mode message of an RPC request: nil when the request carries none.
+func (o op) reqMode() *traits.ElectricMode {
+	if o.NilMode || o.Mode == nil {
+		return nil
+	}
+	return o.Mode.proto()
 }
 
 func (o op) hasWriteOpts() bool {
@@ -139,6 +150,18 @@ func (o op) line() string {
 	if o.Mode != nil {
 		m = o.Mode.String()
 	}
+	if o.NilMode {
+		// a request without a mode message: for UpdateMode / UpdateActiveMode that is the empty id; CreateMode has its
+		// own operation in the model
+		switch o.Kind {
+		case "s.create":
+			return "s.create nil " + cands
+		case "s.update":
+			return "s.update " + mode{}.String() + " " + mask
+		case "s.change":
+			return fmt.Sprintf("s.change i %d", o.Now)
+		}
+	}
 	switch o.Kind {
 	case "create", "s.create":
 		return o.Kind + " " + m + " " + cands
@@ -158,6 +181,9 @@ func (o op) line() string {
 		}
 		return o.Kind + " " + m + " " + mask
 	case "delete", "s.delete":
+		if o.Kind == "delete" && o.Check != "" {
+			return o.Kind + " i" + hexs(o.ID) + " " + b01(o.AllowMissing) + " " + o.expectedToken() + " " + o.Check
+		}
 		if o.Kind == "delete" && o.Expected != nil {
 			return o.Kind + " i" + hexs(o.ID) + " " + b01(o.AllowMissing) + " " + o.expectedToken()
 		}
@@ -242,6 +268,13 @@ type world struct {
 	chMu    sync.Mutex
 	changed bool
 	streams *streams
+	// untamed: an UpdateMode with options outside WOpts.Tame has succeeded (records may no longer carry their keys:
+	// from then on the run feeds the tie only)
+	untamed bool
+	// foreign: the model was configured with a record under a key it does not carry
+	foreign bool
+	// park, when set, is the WithExpectedCheck callback of a DeleteMode / UpdateMode whose check is named "pk" (forced.go)
+	park func(proto.Message) error
 }
 
 // config is how the model is constructed: NewModel(WithInitialMode(Modes…), WithInitialActiveMode(Active)).
@@ -249,6 +282,25 @@ type world struct {
 type config struct {
 	Modes  []mode `json:"modes,omitempty"`
 	Active *mode  `json:"active,omitempty"`
+	// Recs: initial records given directly, WithModeOption(resource.WithInitialRecord(key, mode)); used instead of Modes
+	Recs []keyed `json:"records,omitempty"`
+}
+
+// keyed is an initial record: a mode stored under a key of the caller's choosing.
+type keyed struct {
+	Key  string `json:"key"`
+	Mode mode   `json:"mode"`
+}
+
+// foreign: some initial record does not carry the key it is stored under (a configuration error the
+// constructor does not check; outside the hypothesis of C19_keyed_inv: such runs feed the tie only).
+func (c config) foreign() bool {
+	for _, r := range c.Recs {
+		if r.Key != r.Mode.ID {
+			return true
+		}
+	}
+	return false
 }
 
 func (c config) placeholderID() string {
@@ -260,12 +312,19 @@ func (c config) placeholderID() string {
 
 // line renders the configuration for the Lean driver.
 func (c config) line() string {
-	if c.Active == nil && len(c.Modes) == 0 {
+	if c.Active == nil && len(c.Modes) == 0 && len(c.Recs) == 0 {
 		return "reset"
 	}
 	a := mode{}
 	if c.Active != nil {
 		a = *c.Active
+	}
+	if len(c.Recs) > 0 {
+		xs := make([]string, len(c.Recs))
+		for i, r := range c.Recs {
+			xs[i] = "k" + hexs(r.Key) + "=" + r.Mode.String()
+		}
+		return "kconfig " + a.String() + " " + strings.Join(xs, ";")
 	}
 	ms := "-"
 	if len(c.Modes) > 0 {
@@ -288,13 +347,19 @@ func (c config) invalid() bool {
 		}
 		seen[m.ID] = true
 	}
+	for _, r := range c.Recs {
+		if seen[r.Key] {
+			return true
+		}
+		seen[r.Key] = true
+	}
 	return false
 }
 
 func newWorld() *world { return newWorldCfg(config{}) }
 
 func newWorldCfg(c config) *world {
-	w := &world{clk: &fakeClock{}, rng: &scriptReader{}}
+	w := &world{clk: &fakeClock{}, rng: &scriptReader{}, foreign: c.foreign()}
 	opts := []resource.Option{electricpb.WithClock(w.clk), resource.WithRNG(w.rng)}
 	if len(c.Modes) > 0 {
 		ms := make([]*traits.ElectricMode, len(c.Modes))
@@ -306,6 +371,9 @@ func newWorldCfg(c config) *world {
 		if len(ms) > 1 {
 			opts = append(opts, electricpb.WithInitialMode(ms[1:]...))
 		}
+	}
+	for _, r := range c.Recs {
+		opts = append(opts, electricpb.WithModeOption(resource.WithInitialRecord(r.Key, r.Mode.proto())))
 	}
 	if c.Active != nil {
 		opts = append(opts, electricpb.WithInitialActiveMode(c.Active.proto()))
@@ -334,7 +402,9 @@ func res(m *traits.ElectricMode, withMode bool, err error) string {
 	return "OK"
 }
 
-func (o op) writeOpts() []resource.WriteOption {
+func (o op) writeOpts() []resource.WriteOption { return o.writeOptsWith(nil) }
+
+func (o op) writeOptsWith(park func(proto.Message) error) []resource.WriteOption {
 	var opts []resource.WriteOption
 	if o.HasMask {
 		opts = append(opts, resource.WithUpdateMask(&fieldmaskpb.FieldMask{Paths: append([]string{}, o.Mask...)}))
@@ -348,7 +418,7 @@ func (o op) writeOpts() []resource.WriteOption {
 	if o.Expected != nil {
 		opts = append(opts, resource.WithExpectedValue(o.Expected.proto()))
 	}
-	return append(opts, o.callerOpts()...)
+	return append(opts, o.callerOptsWith(park)...)
 }
 
 func (o op) fieldMask() *fieldmaskpb.FieldMask {
@@ -378,12 +448,18 @@ func (w *world) exec(o op) (out string, err error, panicked bool) {
 			err = w.model.AddMode(o.Mode.proto())
 			out = res(nil, false, err)
 		case "update":
-			m, err = w.model.UpdateMode(o.Mode.proto(), o.writeOpts()...)
+			m, err = w.model.UpdateMode(o.Mode.proto(), o.writeOptsWith(w.park)...)
 			out = res(m, true, err)
 		case "delete":
 			dopts := []resource.WriteOption{resource.WithAllowMissing(o.AllowMissing)}
 			if o.Expected != nil {
 				dopts = append(dopts, resource.WithExpectedValue(o.Expected.proto()))
+			}
+			if o.Check == "pk" && w.park != nil {
+				// forced-overlap rounds: the caller's check parks the delete inside Collection.Delete
+				dopts = append(dopts, resource.WithExpectedCheck(w.park))
+			} else if o.Check != "" {
+				dopts = append(dopts, resource.WithExpectedCheck(namedCheck(o.Check)))
 			}
 			err = w.model.DeleteMode(o.ID, dopts...)
 			out = res(nil, false, err)
@@ -405,16 +481,20 @@ func (w *world) exec(o op) (out string, err error, panicked bool) {
 				out = "err:NotFound" // FindMode reports absence by ok == false
 			}
 		case "s.create":
-			m, err = w.server.CreateMode(bg, &electricpb.CreateModeRequest{Mode: o.Mode.proto()})
+			m, err = w.server.CreateMode(bg, &electricpb.CreateModeRequest{Mode: o.reqMode()})
 			out = res(m, true, err)
 		case "s.update":
-			m, err = w.server.UpdateMode(bg, &electricpb.UpdateModeRequest{Mode: o.Mode.proto(), UpdateMask: o.fieldMask()})
+			m, err = w.server.UpdateMode(bg, &electricpb.UpdateModeRequest{Mode: o.reqMode(), UpdateMask: o.fieldMask()})
 			out = res(m, true, err)
 		case "s.delete":
 			_, err = w.server.DeleteMode(bg, &electricpb.DeleteModeRequest{Id: o.ID, AllowMissing: o.AllowMissing})
 			out = res(nil, false, err)
 		case "s.change":
-			m, err = w.server.UpdateActiveMode(bg, &traits.UpdateActiveModeRequest{ActiveMode: &traits.ElectricMode{Id: o.ID}})
+			am := &traits.ElectricMode{Id: o.ID}
+			if o.NilMode {
+				am = nil
+			}
+			m, err = w.server.UpdateActiveMode(bg, &traits.UpdateActiveModeRequest{ActiveMode: am})
 			out = res(m, true, err)
 		case "s.clear":
 			m, err = w.server.ClearActiveMode(bg, &traits.ClearActiveModeRequest{})
@@ -484,7 +564,8 @@ func (w *world) stateString(s snap) string {
 	for i, m := range s.Modes {
 		ms[i] = showMode(m)
 	}
-	if len(s.Orphans) == 0 && !sort.SliceIsSorted(s.Modes, func(i, j int) bool { return s.Modes[i].Id < s.Modes[j].Id }) {
+	// (the listing is in KEY order: by id only while every record carries its key)
+	if len(s.Orphans) == 0 && !w.foreign && !w.untamed && !sort.SliceIsSorted(s.Modes, func(i, j int) bool { return s.Modes[i].Id < s.Modes[j].Id }) {
 		ms = append(ms, "UNSORTED")
 	}
 	n := "-"
